@@ -1730,11 +1730,13 @@ def GET_EYE(
         # and crossing amplitude
         cond = (input > v25) & (input < v75)
 
-        ty = np.vstack([t[cond], input[cond]]).T
+        # amplitudes in units of the eye height, so that the clustering does not depend on the signal's units
+        ty = np.vstack([t[cond], (input[cond] - state_0)/d01]).T
 
         # We get centroids of 2 clusters for t,y
         kmeans.fit(ty)
         ty_c = kmeans.cluster_centers_
+        ty_c[:,1] = ty_c[:,1]*d01 + state_0 # back to signal units
 
         left = np.argmin(ty_c[:,0])
         right = np.argmax(ty_c[:,0])
